@@ -79,6 +79,8 @@ class Task:
         self.exc = None
         self.thread_obj = thread_obj
         self.daemon = True
+        pr = w._prios
+        self.prio = (pr[self.tid % len(pr)] if pr else 0) * 1000 - self.tid
         self.real = _rt.Thread(target=self._main, name=f"sim-{name}", daemon=True)
         proc.tasks.append(self)
         w.tasks.append(self)
@@ -138,6 +140,10 @@ class World:
         self.fatal = None
         self.schedule = schedule or {"kind": "pb", "preempt": []}
         self._pre = {int(k): int(c) for k, c in self.schedule.get("preempt", [])}
+        self._pct = self.schedule.get("kind") == "pct"
+        self._prios = list(self.schedule.get("prios", [])) if self._pct else []
+        self._changes = set(int(x) for x in self.schedule.get("changes", [])) if self._pct else set()
+        self._low = -1
         self._rw = list(self.schedule.get("choices", []))
         self._rw_i = 0
         self.faults = list(faults or [])
@@ -247,6 +253,8 @@ class World:
         if self.version != self._v_seen:
             self._v_seen = self.version
             self._v_step = self.steps
+        if self._pct:
+            return self._pct_point(t)
         c = self._choice()
         if c is None:
             t.streak += 1
@@ -271,12 +279,34 @@ class World:
         acts = self._actions(t)
         if len(acts) <= 1:
             return
-        a = acts[c % len(acts)]
-        if a[1] is t:
+        a = self._pick(acts, c)
+        if a is None or a[1] is t:
             return
         self.preemptions += 1
         t.enabled_since = self.now
         self._perform(a, t)
+
+    def _pct_point(self, t):
+        """PCT-style priority scheduling: the enabled task of highest priority runs; at the drawn change points (and
+        after STREAK_MAX points without blocking) the current task drops below every other priority."""
+        d = self.decision_no
+        self.decision_no += 1
+        t.streak += 1
+        if d in self._changes or t.streak >= STREAK_MAX:
+            if t.streak >= STREAK_MAX and self.steps - self._v_step > SPIN_LIVELOCK and \
+                    not [a for a in self._actions(t) if a[1] is not t]:
+                self.cur = None
+                self.stop("livelock", [f"{t.name}@{t.proc.pid}:spinning:{where(t)}"])
+            t.streak = 0
+            t.prio = self._low * 1000 - t.tid
+            self._low -= 1
+        runs = [a for a in self._actions(t) if a[0] == "run"]
+        best = max(runs, key=lambda a: a[1].prio) if runs else None
+        if best is None or best[1] is t:
+            return
+        self.preemptions += 1
+        t.enabled_since = self.now
+        self._perform(best, t)
 
     def _choice(self):
         d = self.decision_no
@@ -290,6 +320,17 @@ class World:
             self._rw_i += 1
             return c
         return None
+
+    @staticmethod
+    def _pick(acts, c):
+        """c >= 0: index into the canonical action list; c < 0: the (-c-1)-th eligible timer if any (timer-eager
+        decisions let idle timeouts expire while other tasks are still runnable), else the default."""
+        if c >= 0:
+            return acts[c % len(acts)]
+        fires = [a for a in acts if a[0] == "fire"]
+        if not fires:
+            return None
+        return fires[(-c - 1) % len(fires)]
 
     def block_until(self, pred, timeout=None, what="", sleep=False):
         """Block the current task until pred() holds (True) or its timer is fired (False)."""
@@ -382,10 +423,16 @@ class World:
             self.cur = None
             self.stop("excluded" if self._vetoed else "quiescent")
             return
-        c = self._choice()
         runs = [a for a in acts if a[0] == "run"]
-        if c is not None:
-            a = acts[c % len(acts)]
+        if self._pct:
+            c = None
+            if runs:
+                runs = [max(runs, key=lambda a: a[1].prio)]
+        else:
+            c = self._choice()
+        a = self._pick(acts, c) if c is not None else None
+        if a is not None:
+            pass
         elif runs:
             a = runs[0]
         else:
@@ -425,7 +472,8 @@ class World:
                 self.now = u.deadline
             u.timed_out = True
             self.timers_fired += 1
-            self.ev("fire", task=u.name, pid=u.proc.pid, what=u.what, now=self.now)
+            self.ev("fire", task=u.name, pid=u.proc.pid, what=u.what, now=self.now,
+                    pending=(self.pending_probe() if self.pending_probe is not None else None))
         u.state = "ready"
         self.cur = u
         if u is t:
@@ -454,7 +502,7 @@ class World:
                 u.state = "dead"
         self._close_proc_fds(p)
         self.version += 1
-        self.ev("exit", pid=p.pid, code=code)
+        self.ev("exit", pid=p.pid, code=code, pending=(self.pending_probe() if self.pending_probe is not None else None))
 
     def kill_proc(self, p, cause, injected=False, by=None):
         """Abrupt death. cause: negative int = signal, positive/zero = os._exit(n)."""
@@ -486,6 +534,8 @@ class World:
             _park()
 
     on_death = None
+    pending_probe = None
+    sample_registered = None
 
 
 def where(task, full=False):
